@@ -332,7 +332,7 @@ def honoured(tr, caps):
     return True
 
 
-def run_premise(ctx, prop, rule, prefix, what_holds, consequence, where_="src/mqtt/client"):
+def run_premise(ctx, prop, rule, prefix, what_holds, consequence, where_="src/mqtt/client", only=None):
     """Another property's rules as a premise of this one: runs that property's check on the same analysis and reports its
     (unlisted) failures under `rule` of the calling property, one instance per failed construct, or one for the lot."""
     import importlib
@@ -343,7 +343,7 @@ def run_premise(ctx, prop, rule, prefix, what_holds, consequence, where_="src/mq
     seen = set()
     for f in sub.findings:
         key = (f.rule, f.construct)
-        if key in seen or key in known:
+        if key in seen or key in known or (only is not None and not only(f)):
             continue
         seen.add(key)
         ctx.ob(rule, "%s premise %s %s" % (prefix, f.rule, f.construct), False, file=f.file, line=f.line, function=f.function,
@@ -351,3 +351,73 @@ def run_premise(ctx, prop, rule, prefix, what_holds, consequence, where_="src/mq
     if not seen:
         ctx.ob(rule, "%s (%d instances of %s's rules)" % (what_holds, len(sub.obligations), prop), True, where=where_, construct="%s/premises" % prefix)
     ctx.count("%s_premise_instances" % prefix, len(sub.obligations))
+
+
+ONE_SHOT_BUILTINS = {"iter", "map", "filter", "zip", "reversed", "enumerate"}
+FULL_CONSUMERS = {"set", "list", "sorted", "tuple", "any", "all", "sum", "max", "min", "frozenset", "dict", "len"}
+
+
+def oneshot_misuses(prog, mod):
+    """Locals bound to a one-shot iterator - a call of a generator function of the repository, a generator expression, iter()/map()/
+    filter()/zip()/reversed()/enumerate() - and consumed more than once: a membership test, a for loop or a collecting call over the name
+    that sits in a loop the binding is outside of, or a second such use.  The second consumption sees only what the first left over.
+    Yields (FuncInfo, name, binding node, consuming node, why)."""
+    import ast
+    funcs = list(mod.funcs.values()) + [m for c in mod.classes.values() for m in c.methods.values()]
+    for fn in funcs:
+        binds = {}
+        for x in ast.walk(fn.node):
+            if isinstance(x, ast.Assign) and len(x.targets) == 1 and isinstance(x.targets[0], ast.Name):
+                v = x.value
+                kind = None
+                if isinstance(v, ast.GeneratorExp):
+                    kind = "a generator expression"
+                elif isinstance(v, ast.Call) and isinstance(v.func, ast.Name) and v.func.id in ONE_SHOT_BUILTINS:
+                    kind = "%s()" % v.func.id
+                elif isinstance(v, ast.Call) and isinstance(v.func, ast.Name):
+                    r = prog.resolve(mod, v.func.id)
+                    if r and r[0] == "func" and r[1].is_generator:
+                        kind = "the generator %s()" % v.func.id
+                elif isinstance(v, ast.Call) and isinstance(v.func, ast.Attribute) and isinstance(v.func.value, ast.Name) and v.func.value.id == "self" \
+                        and fn.cls is not None:
+                    m = prog.lookup_method(fn.cls, v.func.attr)
+                    if m is not None and m.is_generator:
+                        kind = "the generator self.%s()" % v.func.attr
+                if kind:
+                    binds.setdefault(x.targets[0].id, []).append((x, kind))
+        for name, bl in binds.items():
+            stores = [x for x in ast.walk(fn.node) if isinstance(x, ast.Name) and x.id == name and isinstance(x.ctx, ast.Store)]
+            if len(stores) != 1:
+                continue       # rebound: each binding would have to be followed on its own
+            bnode, kind = bl[0]
+            uses = []
+            for x in ast.walk(fn.node):
+                if isinstance(x, ast.Compare) and len(x.ops) == 1 and isinstance(x.ops[0], (ast.In, ast.NotIn)) \
+                        and isinstance(x.comparators[0], ast.Name) and x.comparators[0].id == name:
+                    uses.append((x, "membership test"))
+                elif isinstance(x, (ast.For, ast.comprehension)) and isinstance(x.iter, ast.Name) and x.iter.id == name:
+                    uses.append((x if isinstance(x, ast.For) else x.iter, "loop"))
+                elif isinstance(x, ast.Call) and isinstance(x.func, ast.Name) and x.func.id in FULL_CONSUMERS and x.args \
+                        and isinstance(x.args[0], ast.Name) and x.args[0].id == name:
+                    uses.append((x, "%s()" % x.func.id))
+            loops = [l for l in ast.walk(fn.node) if isinstance(l, (ast.For, ast.While))]
+
+            def in_foreign_loop(node):
+                for l in loops:
+                    inside = any(y is node for b in l.body + l.orelse for y in ast.walk(b)) or \
+                        (isinstance(l, ast.While) and any(y is node for y in ast.walk(l.test)))
+                    holds_binding = any(y is bnode for y in ast.walk(l))
+                    if inside and not holds_binding:
+                        return l
+                return None
+            for node, what in uses:
+                l = in_foreign_loop(node)
+                if l is not None:
+                    yield fn, name, bnode, node, "%s is bound once (line %d) to %s and the %s at line %d runs on every turn of the loop at line %d: each " \
+                        "turn sees only what the turns before it left unread" % (name, bnode.lineno, kind, what, node.lineno, l.lineno)
+                    break
+            else:
+                if len(uses) > 1:
+                    u = sorted(uses, key=lambda t: (t[0].lineno, t[0].col_offset))
+                    yield fn, name, bnode, u[1][0], "%s is bound to %s and consumed twice (%s at line %d, %s at line %d): the second use sees only " \
+                        "what the first left unread" % (name, kind, u[0][1], u[0][0].lineno, u[1][1], u[1][0].lineno)
